@@ -225,6 +225,39 @@ func VerifC08Fault() {
 		vAssert("negotiation-fault-leaves-state", same)
 		vAssert("negotiation-fault-canceled", res == Canceled)
 	}
+	if verifRank(faulted) == 4 {
+		// final-phase fault: exactly the changes whose final handler had not completed are rolled back.
+		// finals run Exits (End handlers) first, then Enters (State handlers), in call order.
+		var finals []string
+		for _, c := range s.calls {
+			if verifRank(c.name) == 4 && !(len(c.name) >= 9 && c.name[:9] == "Exception") {
+				finals = append(finals, c.name)
+			}
+		}
+		rolled := true
+		done := true
+		for _, name := range finals {
+			st := name[:1]
+			if name == faulted {
+				done = false
+			}
+			isEnter := name[1:] == "State"
+			was := verifHas(s.pre, st)
+			now := verifHas(post, st)
+			if done {
+				// completed: the change stays (unless a later auto / exception transition touched it)
+				continue
+			}
+			if isEnter && !was && now {
+				rolled = false // activation whose State handler did not complete is still there
+			}
+			if !isEnter && was && !now {
+				rolled = false // deactivation whose End handler did not complete was not undone
+			}
+		}
+		vKnown("c08-end-handler-fault-not-rolled-back", len(faulted) > 3 && faulted[1:] == "End")
+		vAssert("final-fault-rolls-back-incomplete-changes", rolled)
+	}
 	// the machine lives on
 	r2 := m.Remove1(StateException, nil)
 	vAssert("machine-accepts-mutations-after-fault", r2 == Executed && !m.IsErr())
